@@ -323,6 +323,100 @@ def run_pairs(f, P):
     return out
 
 
+def run_contiguity(f, P):
+    """Functions that return (start, count) built from two mutable locals and grow the count in a loop by pieces
+    obtained one at a time: a piece is added to a non-empty run only on the `equal` edge of a comparison of two
+    computed addresses (the piece continues the run).  Path sensitive for `count == 0` tests and the comparison.
+    -> [(fn, where_increment, ok, detail)]"""
+    from .interp import Interp, Domain
+    out = []
+    for b in f.body_list:
+        if '::tests::' in b.path or not b.is_coroutine:
+            continue
+        defs = P.defs(b)
+        pairs = set()
+        for bi in b.reachable():
+            for s in b.blocks[bi]['st']:
+                if s['k'] == 'assign' and s['rv']['k'] == 'agg' and s['rv'].get('ak') == 'tuple' and len(s['rv']['ops']) == 2:
+                    o0, o1 = s['rv']['ops']
+                    if o0['k'] in ('copy', 'move') and o1['k'] in ('copy', 'move') and not o0['pl']['p'] and not o1['pl']['p']:
+                        a, n = _through_copy(b, defs, o0['pl']['l']), _through_copy(b, defs, o1['pl']['l'])
+                        if b.ty(a).get('p') == 'u64' and b.ty(n).get('p') == 'usize' and a in b.names and n in b.names:
+                            pairs.add((a, n))
+        for (a, n) in pairs:
+            inc_srcs = set()
+            inc_blocks = set()
+            for d in defs.get(n, []):
+                if d[0] != 'st':
+                    continue
+                rv = b.blocks[d[1]]['st'][d[2]]['rv']
+                if rv['k'] == 'use' and rv['ops'][0]['k'] in ('copy', 'move'):
+                    src = rv['ops'][0]['pl']['l']
+                    for d2 in defs.get(src, []):
+                        if d2[0] == 'st' and b.blocks[d2[1]]['st'][d2[2]]['rv']['k'] == 'bin' and \
+                                b.blocks[d2[1]]['st'][d2[2]]['rv'].get('op', '').startswith('Add'):
+                            inc_srcs.add(src)
+                            inc_blocks.add(d[1])
+            if not inc_blocks or not any(_in_loop(b, x) for x in inc_blocks):
+                continue
+
+            class D(Domain):
+                merge = False
+
+                def __init__(self):
+                    self.res = {}
+
+                def on_switch(self, ip, fr, tok, tags, bi, term, target):
+                    dpl = term['d'].get('pl') if term['d']['k'] in ('copy', 'move') else None
+                    if dpl is None or dpl['p']:
+                        return tok
+                    for st_ in fr.body.blocks[bi]['st']:
+                        if st_['k'] == 'assign' and st_['pl']['l'] == dpl['l'] and st_['rv']['k'] == 'bin' and st_['rv']['op'] in ('Eq', 'Ne'):
+                            o0, o1 = st_['rv']['ops']
+                            vals = [int(x['v']) for x in term['ts'] if x['t'] == target]
+                            is_true = (vals and vals[0] != 0) or (not vals and all(int(x['v']) == 0 for x in term['ts']))
+                            eq = is_true if st_['rv']['op'] == 'Eq' else not is_true
+                            if o1['k'] == 'const' and o1.get('v') == '0' and o0['k'] in ('copy', 'move') and not o0['pl']['p'] \
+                                    and _through_copy(fr.body, defs, o0['pl']['l']) == n:
+                                return (tok | {'Z'}) if eq else (tok - {'Z'})
+                            if o0['k'] in ('copy', 'move') and o1['k'] in ('copy', 'move') and \
+                                    fr.body.ty(o0['pl']['l']).get('p') == 'u64' and fr.body.ty(o1['pl']['l']).get('p') == 'u64':
+                                return (tok | {'ADJ'}) if eq else (tok - {'ADJ'})
+                    return tok
+
+                def initial(self):
+                    return frozenset()
+
+                def intercept(self, ip, fr, tok, tags, bi, term, callee):
+                    return [(tok, None)]
+
+                def on_leaf_await(self, ip, fr, tok, tags, bi, term, fut):
+                    return [(tok, None)]
+
+                def on_assign(self, ip, fr, tok, tags, bi, s):
+                    if s['pl']['p']:
+                        return tok
+                    l = s['pl']['l']
+                    rv = s['rv']
+                    if l == n and rv['k'] == 'use' and rv['ops'][0].get('v') == '0':
+                        return (tok | {'Z'}) - {'ADJ'}
+                    if l == n and rv['k'] == 'use' and rv['ops'][0]['k'] in ('copy', 'move') and rv['ops'][0]['pl']['l'] in inc_srcs:
+                        ok = 'Z' in tok or 'ADJ' in tok
+                        self.res[bi] = self.res.get(bi, True) and ok
+                        return tok - {'Z', 'ADJ'}
+                    return tok
+            d = D()
+            ip = Interp(P, d)
+            ip.one_fut = lambda fr, bi, tok, tags, t, fu: [(tok, None)]
+            ip.run(b)
+            for bi, ok in sorted(d.res.items()):
+                out.append((short(b.path), b.where(bi), ok,
+                            ('%s grows only on the first piece or after the piece was compared with the end of the run' % b.lname(n)) if ok else
+                            ('%s grows by a further piece on a path on which the piece was not compared with the end of the run (%s, %s)' % (
+                                b.lname(n), b.lname(a), b.lname(n)))))
+    return out
+
+
 def _through_copy(b, defs, l):
     for _ in range(4):
         ds = defs.get(l, [])
